@@ -9,8 +9,8 @@ EXTENDS Grouper, Json
 
 Trace == ndJsonDeserialize("trace.ndjson")
 
-VARIABLES l, l0, derr
-tvars == <<vars, l, l0, derr>>
+VARIABLES l, l0, derr, dcf
+tvars == <<vars, l, l0, derr, dcf>>
 
 Starts == {i \in 1..Len(Trace) : Trace[i].ev = "Scenario"}
 
@@ -25,15 +25,16 @@ NG(i) == Len(Trace[i].exp)
 TraceInit ==
   \E i \in Starts :
     /\ l0 = i /\ l = i + 1
-    /\ grp = Trace[i].grp /\ exp = Trace[i].exp /\ expsub = Trace[i].expsub
+    /\ grp = Trace[i].grp /\ exp = Trace[i].exp /\ expo = Trace[i].expo /\ expsub = Trace[i].expsub
     /\ pg = [g \in 1..NG(i) |-> NoPG]
     /\ extra = 0
     /\ ann = [p \in 1..Len(Trace[i].grp) |-> ""] /\ lab = [p \in 1..Len(Trace[i].grp) |-> ""]
     /\ done = [p \in 1..Len(Trace[i].grp) |-> FALSE]
     /\ dirty = [g \in 1..NG(i) |-> FALSE] /\ odirty = [g \in 1..NG(i) |-> FALSE]
-    /\ ov = [l |-> 0, a |-> 0]
+    \* ov0: the owner's preemptibility / priority class label as installed (0 plain, 1 labelled)
+    /\ ov = [l |-> 0, a |-> 0, pe |-> Trace[i].ov0, pr |-> Trace[i].ov0] /\ oc = 0
     /\ fc = [g \in 1..NG(i) |-> [f \in Fields |-> 0]]
-    /\ steps = 0 /\ last = NoLast /\ derr = ""
+    /\ steps = 0 /\ last = NoLast /\ derr = "" /\ dcf = 0
 
 Logged(e) ==
   /\ pg' = [g \in 1..Len(e.groups) |-> GroupRec(e.groups[g])]
@@ -42,19 +43,48 @@ Logged(e) ==
   /\ lab' = [p \in 1..Len(e.pods) |-> e.pods[p].sub]
   /\ derr' = e.err
 
+\* a reconcile that ran to completion (no error)
+Completed(e, name, f) ==
+  LET p == e.p
+      g == grp[p]
+  IN /\ done' = [done EXCEPT ![p] = TRUE]
+     /\ dirty' = [dirty EXCEPT ![g] = FALSE]
+     /\ odirty' = [odirty EXCEPT ![g] = FALSE]
+     /\ last' = [n |-> name, p |-> p, g |-> g, f |-> f, wpg |-> e.wpg, wpod |-> e.wpod, wother |-> e.wother,
+                 idem |-> name = "Reconcile" /\ done[p] /\ ~dirty[g]]
+
 TraceReconcile ==
   /\ l <= Len(Trace) /\ Trace[l].ev = "Reconcile"
   /\ LET e == Trace[l]
-         p == e.p
-         g == grp[p]
-     IN /\ Logged(e)
-        /\ done' = [done EXCEPT ![p] = TRUE]
-        /\ dirty' = [dirty EXCEPT ![g] = FALSE]
-        /\ odirty' = [odirty EXCEPT ![g] = FALSE]
-        /\ last' = [n |-> "Reconcile", p |-> p, g |-> g, f |-> "", wpg |-> e.wpg, wpod |-> e.wpod, wother |-> e.wother,
-                    idem |-> done[p] /\ ~dirty[g]]
+     IN Logged(e) /\ Completed(e, "Reconcile", "") /\ dcf' = 0
   /\ steps' = steps + 1 /\ l' = l + 1
-  /\ UNCHANGED <<grp, exp, expsub, fc, ov, l0>>
+  /\ UNCHANGED <<grp, exp, expo, expsub, fc, ov, oc, l0>>
+
+(* Reconcile(p) with the harness armed to let a foreign update of field f land between ApplyToCluster's Get
+   and its Update of the PodGroup (fake client interceptor):
+     fired = 0  the reconcile issued no PodGroup Update (nothing to write for this kind): an ordinary Reconcile;
+     fired = 1  the foreign update was applied (k-th update of the field), then the reconciler's Update went
+                through to the store's optimistic concurrency check:
+                  cf = 1  it came back with 409 Conflict and Reconcile returned that error (what the code base
+                          does: requeue) - the reconcile did not complete: done / dirty / odirty as Grouper!ReconcileRaced;
+                  err = "" the reconcile dealt with the conflict itself and completed;
+                  anything else is drift (D_NoError).
+   In every case C18_ForeignPreserved judges the logged PodGroups. *)
+TraceRaced ==
+  /\ l <= Len(Trace) /\ Trace[l].ev = "Raced"
+  /\ LET e == Trace[l]
+         g == grp[e.p]
+     IN /\ Logged(e) /\ dcf' = e.cf
+        /\ IF e.fired = 0
+             THEN Completed(e, "Reconcile", "") /\ fc' = fc
+             ELSE /\ fc' = [fc EXCEPT ![g][e.f] = e.k]
+                  /\ IF e.err = ""
+                       THEN Completed(e, "Raced", e.f)
+                       ELSE /\ dirty' = [dirty EXCEPT ![g] = TRUE]
+                            /\ last' = [n |-> "Raced", p |-> e.p, g |-> g, f |-> e.f, wpg |-> e.wpg, wpod |-> e.wpod, wother |-> e.wother, idem |-> FALSE]
+                            /\ UNCHANGED <<done, odirty>>
+  /\ steps' = steps + 1 /\ l' = l + 1
+  /\ UNCHANGED <<grp, exp, expo, expsub, ov, oc, l0>>
 
 TraceForeign ==
   /\ l <= Len(Trace) /\ Trace[l].ev = "Foreign"
@@ -63,40 +93,47 @@ TraceForeign ==
         /\ fc' = [fc EXCEPT ![e.g][e.f] = e.k]
         /\ dirty' = [dirty EXCEPT ![e.g] = TRUE]
         /\ last' = [n |-> "Foreign", p |-> 0, g |-> e.g, f |-> e.f, wpg |-> 0, wpod |-> 0, wother |-> 0, idem |-> FALSE]
-  /\ steps' = steps + 1 /\ l' = l + 1
-  /\ UNCHANGED <<grp, exp, expsub, done, ov, odirty, l0>>
+  /\ steps' = steps + 1 /\ l' = l + 1 /\ dcf' = 0
+  /\ UNCHANGED <<grp, exp, expo, expsub, done, ov, oc, odirty, l0>>
 
 TraceOwner ==
   /\ l <= Len(Trace) /\ Trace[l].ev = "Owner"
   /\ LET e == Trace[l]
      IN /\ Logged(e)
+        \* k: the label / annotation's change counter (l, a) resp. the label's new state (pe, pr: 0 = removed)
         /\ ov' = [ov EXCEPT ![e.f] = e.k]
+        /\ oc' = oc + 1
         /\ dirty' = [g \in 1..Len(dirty) |-> TRUE]
         /\ odirty' = [g \in 1..Len(odirty) |-> TRUE]
-        /\ last' = [n |-> "Owner", p |-> 0, g |-> 0, f |-> e.f, wpg |-> 0, wpod |-> 0, wother |-> 0, idem |-> FALSE]
-  /\ steps' = steps + 1 /\ l' = l + 1
-  /\ UNCHANGED <<grp, exp, expsub, done, fc, l0>>
+        /\ last' = [n |-> "Owner", p |-> 0, g |-> e.g, f |-> e.f, wpg |-> 0, wpod |-> 0, wother |-> 0, idem |-> FALSE]
+  /\ steps' = steps + 1 /\ l' = l + 1 /\ dcf' = 0
+  /\ UNCHANGED <<grp, exp, expo, expsub, done, fc, l0>>
 
-TraceNext == TraceReconcile \/ TraceForeign \/ TraceOwner
+TraceNext == TraceReconcile \/ TraceRaced \/ TraceForeign \/ TraceOwner
 TraceSpec == TraceInit /\ [][TraceNext]_tvars
 
 \* ---- drift monitors: the trace is well formed and the harness did what the schedule says ----
-D_NoError == derr = ""
-D_Shape == /\ Len(pg) = Len(exp) /\ Len(ann) = Len(grp) /\ Len(lab) = Len(grp) /\ Len(expsub) = Len(grp)
+\* the only error a step may return: the 409 of a reconcile whose PodGroup Update was raced by a foreign update
+D_NoError == derr = "" \/ (last.n = "Raced" /\ dcf = 1)
+D_Shape == /\ Len(pg) = Len(exp) /\ Len(ann) = Len(grp) /\ Len(lab) = Len(grp) /\ Len(expsub) = Len(grp) /\ Len(expo) = Len(exp)
            /\ \A p \in Pods : grp[p] \in 1..Len(exp)
+           /\ \A g \in 1..Len(expo) : Len(expo[g].pe) = 3 /\ Len(expo[g].pr) = 3
+           /\ ov.pe \in OwnerVals /\ ov.pr \in OwnerVals
+           \* the table agrees with the expectation for the workload as installed
+           /\ steps = 0 => \A g \in 1..Len(expo) : exp[g].preempt = expo[g].pe[ov.pe + 1] /\ exp[g].prio = expo[g].pr[ov.pr + 1]
 D_ForeignApplied ==
   last.n = "Foreign" => /\ pg[last.g].ex
                         /\ pg[last.g].f[last.f] = FVal(last.f, fc[last.g][last.f])
 \* an owner change itself touches no PodGroup
 D_OwnerOnly == [][Trace[l].ev = "Owner" => pg' = pg]_tvars
-D_Consumed == (l <= Len(Trace) /\ Trace[l].ev # "Scenario") => Trace[l].ev \in {"Reconcile", "Foreign", "Owner"}
+D_Consumed == (l <= Len(Trace) /\ Trace[l].ev # "Scenario") => Trace[l].ev \in {"Reconcile", "Raced", "Foreign", "Owner"}
 
 \* ---- the action property over the recorded steps ----
 C18_ForeignPreservedTrace == [][C18_ForeignPreservedStep]_tvars
 
 (* ---- schedule exporter (model side): every transition of the schedule graph as one JSON line ---- *)
 Edge == PrintT("EDGE " \o ToJson([a |-> [n |-> last'.n, p |-> last'.p, g |-> last'.g, f |-> last'.f], s |-> Proj, t |-> Proj']))
-GenInit == Init /\ l = 0 /\ l0 = 0 /\ derr = ""
-GenNext == Next /\ UNCHANGED <<l, l0, derr>>
+GenInit == Init /\ l = 0 /\ l0 = 0 /\ derr = "" /\ dcf = 0
+GenNext == Next /\ UNCHANGED <<l, l0, derr, dcf>>
 GenView == SchedView
 =============================================================================
